@@ -153,15 +153,18 @@ pub proof fn lemma_entries_push(es: Seq<(String, Value)>, e: (String, Value))
 		res is Ok && res->Ok_0 is None ==> (*final(r)).consumed() == (*old(r)).consumed() + seq![0x7du8] /*[C16.map_ends_at_closing_brace]*/,
 		res is Ok && res->Ok_0 is None ==> (*final(r)).rest() == skip((*old(r)).rest(), (seq![0x7du8]).len() as int) && (*old(r)).rest().len() >= (seq![0x7du8]).len(),
 //@end
+// C06 (stack depth): the two mutually recursive functions carry the nesting level; their termination measure is
+// MAX_DEPTH + 1 - depth, so the depth of the recursion is bounded by a constant whatever the input holds
+//@const src/io/ubjson/de.rs MAX_DEPTH
 //@fn src/io/ubjson/de.rs | - | to_val | ret=res | tail | sub=/serde_json::Number::from(/Number::from(/
-	requires (*old(r)).inv(), !(*old(r)).hit_eof(),
+	requires (*old(r)).inv(), !(*old(r)).hit_eof(), depth <= MAX_DEPTH /*[C06.metadata_nesting_bounded]*/,
 	ensures (*final(r)).inv(), (*final(r)).stable() == (*old(r)).stable(), (*final(r)).hit_eof() ==> res is Err /*[C07.eof_is_an_error]*/,
 		res is Ok ==> !(*final(r)).hit_eof() && (*final(r)).rest().len() < (*old(r)).rest().len(),
 		res is Ok && val_nodup(res->Ok_0) ==> val_ok(res->Ok_0) /*[C16.values_are_strings_ints_maps]*/,
 		res is Ok ==> (*old(r)).consumed().is_prefix_of((*final(r)).consumed()),
 		res is Ok && val_nodup(res->Ok_0) ==> (*final(r)).consumed() == (*old(r)).consumed() + enc_val(res->Ok_0) /*[C16.value_bytes_are_its_encoding]*/,
 		res is Ok && val_nodup(res->Ok_0) ==> (*final(r)).rest() == skip((*old(r)).rest(), (enc_val(res->Ok_0)).len() as int) && (*old(r)).rest().len() >= (enc_val(res->Ok_0)).len(),
-	decreases (*old(r)).rest().len(), 0int,
+	decreases MAX_DEPTH + 1 - depth, 0int,
 //@after let ret__
 	proof {
 		if ret__ is Ok {
@@ -175,17 +178,18 @@ pub proof fn lemma_entries_push(es: Seq<(String, Value)>, e: (String, Value))
 		}
 	}
 //@end
-//@fn src/io/ubjson/de.rs | - | read_map | ret=res | sigsub=/Map<String, Value>/JsMap/ | sub=/Map::new()/JsMap::new()/
-	requires (*old(r)).inv(), !(*old(r)).hit_eof(),
+//@fn src/io/ubjson/de.rs | - | read_map_at | ret=res | sigsub=/Map<String, Value>/JsMap/ | sub=/Map::new()/JsMap::new()/
+	requires (*old(r)).inv(), !(*old(r)).hit_eof(), depth <= MAX_DEPTH + 1 /*[C06.metadata_nesting_bounded]*/,
 	ensures (*final(r)).inv(), (*final(r)).stable() == (*old(r)).stable(), (*final(r)).hit_eof() ==> res is Err /*[C07.eof_is_an_error]*/,
 		res is Ok ==> !(*final(r)).hit_eof() && (*final(r)).rest().len() < (*old(r)).rest().len()
 			&& (*final(r)).consumed().len() > (*old(r)).consumed().len() && (*old(r)).consumed().is_prefix_of((*final(r)).consumed()) && (*final(r)).consumed().last() == 0x7du8 /*[C06.metadata_reader_consumes_input]*/,
 		res is Ok && !res->Ok_0.dup && entries_nodup(res->Ok_0@, res->Ok_0@.len() as int) ==> entries_ok(res->Ok_0@, res->Ok_0@.len() as int),
 		res is Ok && !res->Ok_0.dup && entries_nodup(res->Ok_0@, res->Ok_0@.len() as int) ==> (*final(r)).consumed() == (*old(r)).consumed() + enc_entries(res->Ok_0@, res->Ok_0@.len() as int) + seq![0x7du8] /*[C16.map_bytes_are_its_encoding_in_order]*/,
 		res is Ok && !res->Ok_0.dup && entries_nodup(res->Ok_0@, res->Ok_0@.len() as int) ==> (*final(r)).rest() == skip((*old(r)).rest(), (enc_entries(res->Ok_0@, res->Ok_0@.len() as int) + seq![0x7du8]).len() as int) && (*old(r)).rest().len() >= (enc_entries(res->Ok_0@, res->Ok_0@.len() as int) + seq![0x7du8]).len(),
-	decreases (*old(r)).rest().len(), 1int,
+	decreases MAX_DEPTH + 1 - depth, 1int,
 //@loop 1
 		invariant_except_break
+			depth <= MAX_DEPTH,
 			(*r).inv(), !(*r).hit_eof(), (*r).stable() == (*old(r)).stable(),
 			(*r).rest().len() <= (*old(r)).rest().len(),
 			(*old(r)).consumed().is_prefix_of((*r).consumed()),
@@ -213,6 +217,16 @@ pub proof fn lemma_entries_push(es: Seq<(String, Value)>, e: (String, Value))
 					}
 				}
 			}
+//@end
+
+//@fn src/io/ubjson/de.rs | - | read_map | ret=res | sigsub=/Map<String, Value>/JsMap/
+	requires (*old(r)).inv(), !(*old(r)).hit_eof(),
+	ensures (*final(r)).inv(), (*final(r)).stable() == (*old(r)).stable(), (*final(r)).hit_eof() ==> res is Err /*[C07.eof_is_an_error]*/,
+		res is Ok ==> !(*final(r)).hit_eof() && (*final(r)).rest().len() < (*old(r)).rest().len()
+			&& (*final(r)).consumed().len() > (*old(r)).consumed().len() && (*old(r)).consumed().is_prefix_of((*final(r)).consumed()) && (*final(r)).consumed().last() == 0x7du8 /*[C06.metadata_reader_consumes_input]*/,
+		res is Ok && !res->Ok_0.dup && entries_nodup(res->Ok_0@, res->Ok_0@.len() as int) ==> entries_ok(res->Ok_0@, res->Ok_0@.len() as int),
+		res is Ok && !res->Ok_0.dup && entries_nodup(res->Ok_0@, res->Ok_0@.len() as int) ==> (*final(r)).consumed() == (*old(r)).consumed() + enc_entries(res->Ok_0@, res->Ok_0@.len() as int) + seq![0x7du8] /*[C16.map_bytes_are_its_encoding_in_order]*/,
+		res is Ok && !res->Ok_0.dup && entries_nodup(res->Ok_0@, res->Ok_0@.len() as int) ==> (*final(r)).rest() == skip((*old(r)).rest(), (enc_entries(res->Ok_0@, res->Ok_0@.len() as int) + seq![0x7du8]).len() as int) && (*old(r)).rest().len() >= (enc_entries(res->Ok_0@, res->Ok_0@.len() as int) + seq![0x7du8]).len(),
 //@end
 
 } // verus!
